@@ -144,6 +144,12 @@ FILLS = 4
 
 
 def api_fill(k, seed):
+    if isinstance(k, int) and k >= 100:
+        # small values in neighbouring registers: even addresses hold (k-100)//4, odd addresses (k-100)%4 - over k = 100..115
+        # every pair of adjacent registers takes every combination of {0,1,2,3} (status / mode words that a value might
+        # wrongly be made to depend on)
+        x, y = (k - 100) // 4, (k - 100) % 4
+        return lambda a: x if a % 2 == 0 else y
     if k == 0:
         return lambda a: 0xFFFF
     if k == 1:
@@ -174,7 +180,8 @@ def job_api(j):
                                             replay=dict(part='api', cfg=cfg, transport=transport, seed=seed),
                                             detail=dict(sensor=sid, cause=cause, fill=k, model=cfg['tag'], rated=cfg['power'])))
     # (the last pass repeats one fill with the library's logging at its default level instead of DEBUG)
-    for k in list(range(FILLS)) + ['default-logging', 'overlapped', 'overlapped+ka', 'second-poll', 'second-poll+ka']:
+    for k in list(range(FILLS)) + (list(range(100, 116)) if cfg.get('small_pairs') else []) + \
+            ['default-logging', 'overlapped', 'overlapped+ka', 'second-poll', 'second-poll+ka']:
         world.reset()
         world.set_debug_logging(k != 'default-logging')
         mode = k if isinstance(k, str) else ''
@@ -468,6 +475,10 @@ def run(tier, seed, rep):
     ajobs = [(c, 'udp', seed) for c in acfgs] + [(c, 'tcp', seed) for c in acfgs if c['family'] != 'ES'][::5]
     step = 1 if tier == 'thorough' else 6
     ajobs += [(dict(c, singles=True), 'udp', seed) for c in acfgs[seed % step::step]]
+    # neighbouring registers holding every combination of small values (one configuration per family and meter layout in
+    # the quick tier, every configuration in the thorough one)
+    sp = acfgs if tier == 'thorough' else [c for i, c in enumerate(acfgs) if i % 7 == seed % 7 or c.get('with_refusals')][:12]
+    ajobs += [(dict(c, small_pairs=True), 'udp', seed) for c in sp]
     for n, res in pmap(job_api, ajobs):
         napi += n
         rep.add_many(res)
